@@ -206,9 +206,10 @@ def readAllAux (cfg : Cfg) : Nat → List Bytes → Bytes → List Call
     | .ok (ret, rest, pend') =>
       if ret.e = some .eof then [.ret ret] else .ret ret :: readAllAux cfg fuel rest pend'
 
-/-- All calls of `Read` on a fresh reader over `bs`, one call per input line plus one. -/
-def readAll (cfg : Cfg) (bs : Bytes) : List Call :=
-  let (lines, pend) := readLineInput bs
+/-- All calls of `Read` on a fresh reader over `bs`, one call per input line plus one.
+    `eofWithData` describes the underlying `io.Reader` (`Biogo.Go.Bytes.readLineInput`). -/
+def readAll (cfg : Cfg) (eofWithData : Bool) (bs : Bytes) : List Call :=
+  let (lines, pend) := readLineInput eofWithData bs
   readAllAux cfg (lineCount bs + 1) lines pend
 
 /-! ### writer -/
